@@ -254,14 +254,20 @@ func init() {
 	}
 }
 
-// scenarioLogger alternates between a logger that is off and one at trace level writing to nowhere: what gldap
+// scenarioLogger alternates between a logger that is off and loggers at trace level (text, JSON) writing to nowhere: what gldap
 // does must not depend on whether anybody listens to its log.
 var scenarioCount int64
 
 func scenarioLogger() hclog.Logger {
 	// (never in the race-detector-only runs: a logger's internal mutex orders the calls of different goroutines)
-	if !noTrace && atomic.AddInt64(&scenarioCount, 1)%2 == 0 {
-		return hclog.New(&hclog.LoggerOptions{Level: hclog.Trace, Output: io.Discard})
+	if !noTrace {
+		switch atomic.AddInt64(&scenarioCount, 1) % 3 {
+		case 0:
+			return hclog.New(&hclog.LoggerOptions{Level: hclog.Trace, Output: io.Discard})
+		case 1:
+			// (hclog's JSON format calls Error() / String() of the values it is given itself, without fmt's safety net)
+			return hclog.New(&hclog.LoggerOptions{Level: hclog.Trace, Output: io.Discard, JSONFormat: true})
+		}
 	}
 	return hclog.NewNullLogger()
 }
